@@ -1010,6 +1010,12 @@ func (s *Stage) finalize(file *finalFile) {
 		s.logDebug("Ignoring invalid (final):", file.name, existingState)
 		return
 	}
+	if cached := s.fromCache(file.path); cached != nil && cached != file && cached.hash != file.hash {
+		// A newer version has taken this file's place on the stage since it
+		// was queued; the staged body is no longer this version's
+		s.logDebug("Superseded by a newer version (final):", file.name)
+		return
+	}
 
 	if file.wait != nil {
 		file.wait.Stop()
